@@ -538,6 +538,22 @@ DOMNode *DOMDocumentImpl::insertBefore(DOMNode *newChild, DOMNode *refChild)
         )
         throw DOMException(DOMException::HIERARCHY_REQUEST_ERR,0, getMemoryManager());
 
+    // The children of a DocumentFragment are checked before any of them is moved
+    if(newChild->getNodeType() == DOMNode::DOCUMENT_FRAGMENT_NODE)
+    {
+        int elems = (fDocElement!=0) ? 1 : 0;
+        int doctypes = (fDocType!=0) ? 1 : 0;
+        for(DOMNode *kid=newChild->getFirstChild(); kid!=0; kid=kid->getNextSibling())
+        {
+            if(kid->getNodeType() == DOMNode::ELEMENT_NODE)
+                elems++;
+            else if(kid->getNodeType() == DOMNode::DOCUMENT_TYPE_NODE)
+                doctypes++;
+        }
+        if(elems > 1 || doctypes > 1)
+            throw DOMException(DOMException::HIERARCHY_REQUEST_ERR,0, getMemoryManager());
+    }
+
     // if the newChild is a documenttype node created from domimplementation, set the ownerDoc first
     if ((newChild->getNodeType() == DOMNode::DOCUMENT_TYPE_NODE) && !newChild->getOwnerDocument())
         ((DOMDocumentTypeImpl*)newChild)->setOwnerDocument(this);
